@@ -2,6 +2,7 @@ package main
 
 import (
 	"fmt"
+	"go/ast"
 	"go/token"
 	"go/types"
 	"sort"
@@ -193,24 +194,111 @@ func (g *Gen) function(fn *ssa.Function, ct *Contract) {
 		resVal = Val{Tuple: results}
 	}
 	bindResults(post, fn.Signature, resVal)
-	for _, e := range ct.Ensures {
-		t := post.trBool(e.Expr)
-		o := g.oblige("ensures", e.Label, clauseProps(ct, e), fn, exitReach, t, e.Src, fn.Pos())
-		g.outsideKnown(o, post, fn)
-	}
+	// vacuity guards first: they must not see the postconditions as assumptions
 	for _, e := range ct.Canary {
 		t := post.trBool(e.Expr)
 		o := g.oblige("canary", e.Label, clauseProps(ct, e), fn, exitReach, t, e.Src, fn.Pos())
 		o.ExpectSat = true
+	}
+	cv := g.oblige("cover", "exit_reachable", ct.Props, fn, exitReach, "false", "requires is satisfiable and some return is reachable", fn.Pos())
+	cv.ExpectSat = true
+	// hints: intermediate facts at each return site, proved there and then available as lemmas
+	for _, h := range ct.Hints {
+		applied := 0
+		defer func(h *Clause) {
+			if applied == 0 {
+				g.fail("hint [%s] could not be evaluated at any return site (unknown local?)", h.Label)
+			}
+		}(h)
+		for k, r := range g.topFrame.rets {
+			t, ok := g.hintAt(g.topFrame, r, h, fn, bindTop)
+			if !ok {
+				continue
+			}
+			applied++
+			ho := g.oblige("hint", fmt.Sprintf("%s@return%d", h.Label, k), clauseProps(ct, h), fn, r.reach, t, h.Src, r.pos)
+			ho.Ground = h.Ground
+			g.assume(implies(r.reach, t))
+		}
+	}
+	// postconditions, each proved with the earlier ones available (assert-then-assume)
+	for _, e := range ct.Ensures {
+		t := post.trBool(e.Expr)
+		o := g.oblige("ensures", e.Label, clauseProps(ct, e), fn, exitReach, t, e.Src, fn.Pos())
+		o.Ground = e.Ground
+		g.outsideKnown(o, post, fn)
+		g.assume(implies(exitReach, t))
 	}
 	// frame: whatever is not listed under modifies is unchanged at exit
 	if !ct.ModAll {
 		g.frameObligations(fn, ct, env, exit, entrySnapshot, exitReach, args)
 	}
 	g.replay = g.buildReplay(fn, ct, args)
-	// cover: the precondition is satisfiable and the function can return
-	cv := g.oblige("cover", "exit_reachable", ct.Props, fn, exitReach, "false", "requires is satisfiable and some return is reachable", fn.Pos())
-	cv.ExpectSat = true
+}
+
+// hintAt translates a hint clause in the state of one return site, with the
+// named locals of the function in scope. ok=false if a local it mentions does
+// not exist on that path.
+func (g *Gen) hintAt(f *Frame, r retInfo, h *Clause, fn *ssa.Function, bindTop func(*Env)) (term string, ok bool) {
+	mark := len(g.buf)
+	defer func() {
+		if rec := recover(); rec != nil {
+			if _, isEE := rec.(engineError); isEE {
+				g.buf = g.buf[:mark]
+				term, ok = "", false
+				return
+			}
+			panic(rec)
+		}
+	}()
+	env := g.newEnv(r.st, g.entry)
+	bindTop(env)
+	var resVal Val
+	if len(r.results) == 1 {
+		resVal = r.results[0]
+	} else {
+		resVal = Val{Tuple: r.results}
+	}
+	bindResults(env, fn.Signature, resVal)
+	paramSet := map[string]bool{}
+	for _, p := range fn.Params {
+		paramSet[p.Name()] = true
+	}
+	for _, b := range fn.Blocks {
+		for _, ins := range b.Instrs {
+			switch x := ins.(type) {
+			case *ssa.Alloc:
+				if x.Comment != "" {
+					if v, ok := f.vals[x]; ok && v.Ptr != nil && v.Ptr.Cell != nil {
+						if _, live := r.st.cells[v.Ptr.Cell]; live {
+							if _, taken := env.vars[x.Comment]; !taken {
+								env.cellVars[x.Comment] = v.Ptr.Cell
+							}
+						}
+					}
+				}
+			case *ssa.Phi:
+				name := strings.TrimPrefix(x.Comment, "#")
+				if v, ok := f.vals[x]; ok && name != "" {
+					if _, taken := env.vars[name]; !taken {
+						env.vars[name] = v
+					}
+				}
+			case *ssa.DebugRef:
+				// single-assignment locals: the source identifier of an SSA value
+				if id, ok := x.Expr.(*ast.Ident); ok && !x.IsAddr {
+					if v, ok := f.vals[x.X]; ok {
+						if _, isParam := paramSet[id.Name]; !isParam {
+							if _, isCell := env.cellVars[id.Name]; !isCell {
+								env.vars[id.Name] = v
+							}
+						}
+					}
+				}
+			}
+		}
+	}
+	return env.trBool(h.Expr), true
 }
 
 func (g *Gen) frameObligations(fn *ssa.Function, ct *Contract, env *Env, exit, entry *State, reach string, args []Val) {
